@@ -175,10 +175,38 @@ def install(R):
             return last_literal_str(s_.arg(s_.num_args() - 1))
         return None
 
+    def first_literal_of_base(t):
+        """the literal the last path component certainly starts with, if the term shows it"""
+        t = z3.simplify(t) if z3.is_expr(t) else t
+        if not z3.is_app(t):
+            return None
+        if t.decl().name() == "pjoin":
+            t = t.arg(1)
+        if z3.is_app(t) and t.decl().name().startswith("fmt:"):
+            return t.decl().name()[4:].rsplit("/", 1)[0].split("{}")[0] or None
+        if z3.is_app(t) and t.decl().name() == "VStr":
+            s_ = t.arg(0)
+            if z3.is_string_value(s_):
+                return s_.as_string()
+            if z3.is_app(s_) and s_.decl().kind() == z3.Z3_OP_SEQ_CONCAT and z3.is_string_value(s_.arg(0)):
+                return s_.arg(0).as_string()
+        return None
+
+    def shows_tmp(tv):
+        """temporary names: last component ends with '.tmp' or starts with '.tmp-' (the two spellings the repository uses)"""
+        lit = last_literal(tv)
+        if lit is not None and lit.endswith(".tmp"):
+            return True
+        pre = first_literal_of_base(tv)
+        return pre is not None and pre.startswith(".tmp-")
+
     def tmp_formula(pv):
+        if shows_tmp(pv):
+            return z3.BoolVal(True)
         lit = last_literal(pv)
-        if lit is not None and len(lit) >= 4:
-            return z3.BoolVal(lit.endswith(".tmp"))
+        pre = first_literal_of_base(pv)
+        if lit is not None and len(lit) >= 4 and pre is not None and len(pre) >= 5:
+            return z3.BoolVal(False)
         return istmp(pv)
 
     def note_tmp_names(eng, fr):
@@ -195,8 +223,7 @@ def install(R):
                         tv = eng.as_V(a)
                     except Unsupported:
                         continue
-                    lit = last_literal(tv)
-                    if lit is not None and lit.endswith(".tmp") and not any(z3.eq(tv, s_) for s_ in seen):
+                    if shows_tmp(tv) and not any(z3.eq(tv, s_) for s_ in seen):
                         seen.append(tv)
                         fr.st.assume(istmp(tv))
     R.symbols["note_tmp_names"] = note_tmp_names
@@ -223,8 +250,7 @@ def install(R):
             if e.kind == "fs":
                 for a in e.args:
                     tv = eng.as_V(a)
-                    lit = last_literal(tv)
-                    if lit is not None and lit.endswith(".tmp"):
+                    if shows_tmp(tv):
                         fr.st.assume(istmp(tv))
         return mk_bool(z3.ForAll([q], z3.Implies(z3.Not(istmp(q)), z3.If(q == fv, z3.Or(same, new), same))))
     S["OldOrNewAtomically"] = crash_inv
